@@ -201,3 +201,16 @@ impl Property for P {
         0.2
     }
 }
+
+pub fn decode(data: &[u8]) -> Case {
+    let mut r = crate::fuzzdec::Reader::new(data);
+    let mode = r.u8();
+    let mut spec = crate::fuzzdec::optspec(&mut r, true, false);
+    let k1 = CLASSES[r.pick(CLASSES.len())];
+    let k2 = CLASSES[r.pick(CLASSES.len())];
+    spec.initial_indent = k1[r.pick(k1.len())].to_string();
+    spec.subsequent_indent = k2[r.pick(k2.len())].to_string();
+    let alt_initial = k1[r.pick(k1.len())].to_string();
+    let alt_subsequent = k2[r.pick(k2.len())].to_string();
+    Case { text: crate::fuzzdec::text(mode, r.rest()), spec, alt_initial, alt_subsequent }
+}
